@@ -72,7 +72,7 @@ KEYWORD_NAMES = ["and", "or", "not", "in", "is", "if"]
 STYLES = ["", "'", '"', "r'", 'r"', "'''", "p'", "pr'"]
 
 CHAR_NAMES = {
-    "a": "a", "b": "b", " ": "sp", "'": "sq", '"': "dq", "$": "dollar", "\\": "bslash", "\n": "nl", "\t": "tab",
+    "a": "a", "b": "b", "f": "f", "i": "i", " ": "sp", "'": "sq", '"': "dq", "$": "dollar", "\\": "bslash", "\n": "nl", "\t": "tab",
     "*": "star", "?": "qmark", "[": "lbrack", "]": "rbrack", "{": "lbrace", "}": "rbrace", "(": "lparen",
     ")": "rparen", "&": "amp", "|": "pipe", ";": "semi", "<": "lt", ">": "gt", "!": "bang", "#": "hash",
     "~": "tilde", "-": "dash", "=": "eq", ",": "comma", "%": "pct", "@": "at", "`": "btick",
@@ -229,6 +229,40 @@ class _Worker:
         unq = got[1] if got is not None else raw
         return (cmd.opening_quote, unq)
 
+    def admit_after(self, line, cursor, closer):
+        """Same as admit() for a cursor placed right AFTER an already closed quote (`rec 'my'<Tab>`): the
+        analyser must say is_after_closing_quote, the whole word `opening + value + closing` is the
+        argument, and the completer's unquoting reads that closed literal as `unq`."""
+        k = (line, cursor, closer, "after")
+        if k not in self._admit_cache:
+            self._admit_cache[k] = self._admit_after(line, cursor, closer)
+        return self._admit_cache[k]
+
+    def _admit_after(self, line, cursor, closer):
+        from xonsh.completers.path import _path_from_partial_string
+        from xonsh.parsers.completion_context import CommandArg
+        from xonsh.tools import check_for_partial_string
+
+        ctx = self.completer.parse(line, cursor)
+        if ctx is None or ctx.command is None:
+            return None
+        cmd = ctx.command
+        if cmd.arg_index != 1 or cmd.args != (CommandArg("rec"),):
+            return None
+        if cmd.subcmd_opening or cmd.suffix or not cmd.is_after_closing_quote:
+            return None
+        if cmd.closing_quote != closer or cmd.opening_quote not in STYLES or not cmd.opening_quote:
+            return None
+        raw = cmd.raw_prefix
+        if line[:cursor] != "rec " + raw or line[cursor:] != "":
+            return None
+        if check_for_partial_string(raw)[0] != 0:
+            return None
+        got = _path_from_partial_string(raw, len(raw))
+        if got is None:
+            return None
+        return (cmd.opening_quote, got[1])
+
     def completions(self, line, cursor):
         """Exactly the call PromptToolkitCompleter.get_completions makes (expand_alias leaves a
         callable alias alone); returns [(text, prefix_len)]."""
@@ -352,22 +386,29 @@ def signature(obs, name, kind):
 
 
 _CLOSED_VARIANTS = (False, True)
+AFTER = "after"  # third value of `closed`: the quote is closed and the cursor sits right after it
+AFTER_MAXLEN = 2  # names up to this length are also tried with the cursor after the closed quote
 
 
 def cases_for(name):
     """Every (style, closed, prefix, spelling-kind, line, cursor) the harness tries for one name;
-    simplest first."""
+    simplest first.  closed: False = nothing after the cursor, True = the closing quote follows the
+    cursor, AFTER = the closing quote precedes the cursor."""
     out = []
     for style in STYLES:
         closer = _closer(style)
-        for closed in _CLOSED_VARIANTS if style else (False,):
+        variants = (False,) if not style else _CLOSED_VARIANTS + ((AFTER,) if len(name) <= AFTER_MAXLEN else ())
+        for closed in variants:
             for k in range(len(name)):
                 p = name[:k]
                 for how, sp in spellings(style, p):
                     line = "rec " + style + sp
                     cursor = len(line)
-                    if closed:
+                    if closed is True:
                         line += closer
+                    elif closed == AFTER:
+                        line += closer
+                        cursor = len(line)
                     out.append((style, closed, p, how, line, cursor))
     return out
 
@@ -386,7 +427,10 @@ def check_name(name):
                 if (line, cursor) in seen_lines:
                     continue
                 seen_lines.add((line, cursor))
-                adm = w.admit(line, cursor, _closer(gstyle) if closed else "")
+                if closed == AFTER:
+                    adm = w.admit_after(line, cursor, _closer(gstyle))
+                else:
+                    adm = w.admit(line, cursor, _closer(gstyle) if closed else "")
                 if adm is None or not name.startswith(adm[1]):
                     continue
                 style, p = adm  # as the real analyser / completer read the typed text
@@ -555,6 +599,135 @@ def classify_multi(fails):
     return out
 
 
+# ------------------------------------------------------------------------------- part 1d: hostile PARENT component
+
+# The completed path is not always "typed text + new last component": the completer itself expands
+# the leading part - `$D/f` (the variable is expanded while globbing), subsequence matching `ab/f` ->
+# `a b/fi` (on by default), `~/f` - so a PARENT directory can bring in characters the user never typed.
+DIR_ROUTES = ("envvar", "subsequence", "home")
+DIR_FILES_QUICK = ["fi", "f i"]
+DIR_FILES_THOROUGH = ["fi", "f i", "f'i", "f$i"]
+_PLAIN = set("abfi")
+
+
+def dir_names(thorough):
+    """Directory names with one (thorough: also two) hostile characters before / between / after plain letters."""
+    hostile = [c for c in ALPHA1 if c != "a"]
+    out = []
+    for h in hostile:
+        out += ["a" + h + "b", h + "ab", "ab" + h]
+    if thorough:
+        for h1 in hostile:
+            for h2 in hostile:
+                out.append("a" + h1 + h2 + "b")
+    return out
+
+
+def _dir_reductions(d):
+    """Simpler directory names a failure may be attributed to (same route / file / class)."""
+    hs = [c for c in d if c not in _PLAIN]
+    if len(hs) == 2:
+        for h in hs:
+            yield "a" + h + "b"
+    elif len(hs) == 1 and d != "a" + hs[0] + "b":
+        yield "a" + hs[0] + "b"
+
+
+def check_dir(item):
+    """One hostile directory `d` holding one file `f`, reached by every route on which the completer
+    expands the parent itself; the typed word is a plain unquoted word.  Oracle: exactly one argument
+    that denotes that file (xonsh has expanded variables / `~` by then: compared as absolute paths)."""
+    w = _W
+    d, f = item
+    res = {"dir": d, "file": f, "admitted": 0, "no_completion": 0, "completions": 0, "execs": 0, "failing": 0, "fails": []}
+    dpath = os.path.join(w.cwd, d)
+    target = os.path.join(dpath, f)
+    os.mkdir(dpath)
+    with open(target, "w"):
+        pass
+    env = w.xsh.env
+    try:
+        for route in DIR_ROUTES:
+            if route == "envvar":
+                typed = "$D/" + f[0]
+                env["D"] = dpath
+            elif route == "subsequence":
+                letters = "".join(c for c in d if c in _PLAIN)
+                if not letters or letters == d:
+                    continue
+                typed = letters + "/" + f[0]
+            else:
+                typed = "~/" + f[0]
+                env["HOME"] = dpath
+                os.environ["HOME"] = dpath
+            try:
+                line = "rec " + typed
+                cursor = len(line)
+                ctx = w.completer.parse(line, cursor)
+                cmd = ctx.command if ctx is not None else None
+                if (cmd is None or cmd.arg_index != 1 or len(cmd.args) != 1 or cmd.args[0].value != "rec"
+                        or cmd.prefix != typed or cmd.opening_quote or cmd.suffix or cmd.subcmd_opening):
+                    continue
+                res["admitted"] += 1
+                comps = w.completions(line, cursor)
+                if not comps:
+                    res["no_completion"] += 1
+                    continue
+                for text, plen in comps:
+                    res["completions"] += 1
+                    new = w.splice(line, cursor, text, plen)
+                    obs = w.execute(new, d)
+                    res["execs"] += 1
+                    ok = (isinstance(obs, list) and len(obs) == 1 and len(obs[0]) == 1
+                          and os.path.normpath(os.path.join(w.cwd, obs[0][0])) == target)
+                    if ok:
+                        if "example" not in res and route != "home":
+                            res["example"] = {"part": "roundtrip-dir", "route": route, "dir": d, "file": f, "typed_line": line, "completion": text,
+                                              "prefix_len": plen, "spliced_line": new, "argv_calls": _scrub(obs, w), "verdict": "ok"}
+                        continue
+                    res["failing"] += 1
+                    sig = signature(obs, "\0", "file") or "value"
+                    res["fails"].append({"dir": d, "file": f, "route": route, "line": line, "cursor": cursor, "completion": _scrub(text, w),
+                                         "prefix_len": plen, "spliced": _scrub(new, w), "observed": _scrub(obs, w), "sig": sig})
+            finally:
+                if route == "home":
+                    env["HOME"] = w.home
+                    os.environ["HOME"] = w.home
+                if route == "envvar" and "D" in env:
+                    del env["D"]
+    finally:
+        shutil.rmtree(dpath, ignore_errors=True)
+        left = os.listdir(w.cwd)
+        if left:
+            raise common.ToolError(f"scratch cwd not empty after {item!r}: {left!r}")
+    return res
+
+
+def _scrub(x, w):
+    """Scratch paths out of artefacts (they carry pids)."""
+    if isinstance(x, str):
+        return x.replace(w.cwd, "<CWD>")
+    if isinstance(x, list):
+        return [_scrub(y, w) for y in x]
+    return x
+
+
+def classify_dir(fails):
+    """key = roundtrip-dir:<route>:<shape of the simplest failing directory name>/<shape of file>:<class>"""
+    table = {(f["route"], f["dir"], f["file"], sig_class(f["sig"])) for f in fails}
+    out = []
+    for f in fails:
+        route, d, fl, sc = f["route"], f["dir"], f["file"], sig_class(f["sig"])
+        if fl != "fi" and (route, d, "fi", sc) in table:
+            fl = "fi"
+        for cand in _dir_reductions(d):
+            if (route, cand, fl, sc) in table:
+                d = cand
+                break
+        out.append(("roundtrip-dir:%s:%s/%s:%s" % (route, shape(d), shape(fl), sc), (d, fl), f))
+    return out
+
+
 # ------------------------------------------------------------------------------- part 1: keys
 
 
@@ -585,12 +758,10 @@ def classify_roundtrip(fails):
     of the same class with the same emitted quoting remains).  A failure seen with a closing quote
     after the cursor is labelled so only if the same name passes without one.
     key = roundtrip:<typed quote style>[+closing-quote-after-cursor]:<shape of minimal name>:<class>:<kinds>"""
-    tables_ = {False: collections.defaultdict(set), True: collections.defaultdict(set)}
-    emitted = {}
+    tables_ = {False: collections.defaultdict(set), True: collections.defaultdict(set), AFTER: collections.defaultdict(set)}
     for f in fails:
         k = (f["name"], f["style"], sig_class(f["sig"]))
-        tables_[bool(f["closed"])][k].add(f["kind"])
-        emitted.setdefault((bool(f["closed"]),) + k, f["emitted"])
+        tables_[f["closed"] or False][k].add(f["kind"])
     memo = {}
 
     def minimal(name, ident, closed):
@@ -603,13 +774,16 @@ def classify_roundtrip(fails):
                     break
         return memo[k]
 
+    labels = {False: "", True: "+closing-quote-after-cursor", AFTER: "+cursor-after-closed-quote"}
     out = []
     for f in fails:
         ident = (f["style"], sig_class(f["sig"]))
-        closed = bool(f["closed"]) and (f["name"],) + ident not in tables_[False]
+        closed = f["closed"] or False
+        if closed and (f["name"],) + ident in tables_[False]:
+            closed = False  # fails without any closing quote as well: not specific to it
         m = minimal(f["name"], ident, closed)
         kinds = "+".join(sorted(tables_[closed][(m,) + ident], key=("file", "dir").index))
-        style = STYLE_NAMES.get(f["style"], f["style"]) + ("+closing-quote-after-cursor" if closed else "")
+        style = STYLE_NAMES.get(f["style"], f["style"]) + labels[closed]
         out.append(("roundtrip:%s:%s:%s:%s" % (style, shape(m), ident[1], kinds), m, f))
     return out
 
@@ -962,6 +1136,32 @@ def run(ctx):
     if totm["completions"] == 0:
         raise common.ToolError("vacuous run: no completion was offered in any multi-entry directory")
 
+    # ---- part 1d: hostile parent directory reached through the completer's own expansions
+    ditems = [(d, f) for d in dir_names(ctx.thorough) for f in ctx.pick(DIR_FILES_QUICK, DIR_FILES_THOROUGH)]
+    ctx.log(f"part 1d: {len(ditems)} (hostile directory, file) layouts x routes {DIR_ROUTES}")
+    resd = common.pmap(check_dir, ditems, ctx.jobs, chunk=8, init=_init_worker, seed=ctx.seed)
+    totd = collections.Counter()
+    dfails = []
+    for r in resd:
+        for k in ("admitted", "no_completion", "completions", "execs", "failing"):
+            totd[k] += r[k]
+        dfails.extend(r["fails"])
+    per_dkey = collections.Counter()
+    for key, best, f in classify_dir(dfails):
+        per_dkey[key] += 1
+        if per_dkey[key] > 3:
+            continue
+        ctx.violation(
+            key=key,
+            clause="completed text is read back as exactly one argument that denotes the file (hostile parent directory)",
+            case={"part": "roundtrip-dir", "route": f["route"], "dir": f["dir"], "file": f["file"], "line": f["line"], "cursor": f["cursor"], "minimal": list(best)},
+            observed={"completion": f["completion"], "prefix_len": f["prefix_len"], "spliced_line": f["spliced"], "argv_calls": f["observed"]},
+            expected="one call whose single argument is <CWD>/<dir>/<file> (absolute or relative)",
+        )
+    ctx.log(f"part 1d: {dict(totd)}; {len(per_dkey)} keys")
+    if totd["completions"] * 2 < totd["admitted"]:
+        raise common.ToolError(f"vacuous run: only {totd['completions']} completions for {totd['admitted']} admitted hostile-parent cases")
+
     # ---- part 2
     p2len = ctx.pick(4, 5)
     items = _p2_items(p2len, "full")
@@ -1015,21 +1215,25 @@ def run(ctx):
     ctx.log(f"part 2: {dict(t2)}; part 3: {dict(t3)}; bad (clause, where, class) counts: { {':'.join(str(x) for x in k): n for k, n in bad_counts.items()} }")
 
     # ---- evidence
-    for n in common.pick_samples([r for r in res if "example" in r], ctx.seed, 5):
+    for n in common.pick_samples([r for r in res if "example" in r], ctx.seed, 4):
+        ctx.sample(n["example"])
+    for n in common.pick_samples([r for r in resd if "example" in r], ctx.seed, 2):
         ctx.sample(n["example"])
     for text, cursor in (("a 'b", 4), ("a $(b c", 7), ("a @(b", 5)):
         c2 = _P2.parse(text, cursor)
         ctx.sample({"part": "analyser", "text": text, "cursor": cursor, "context": repr(c2)[:300], "verdict": "ok" if analyse(text, cursor) is None else "violates"})
     ctx.coverage.update(
-        evaluations=tot["completions"] + totm["completions"] + t2["parses"] + t3["parses"],
+        evaluations=tot["completions"] + totm["completions"] + totd["completions"] + t2["parses"] + t3["parses"],
         distinct_nontrivial=tot["execs"] + totm["execs"] + t2["strings"] + t3["strings"],
         rule=(
             f"part 1: all {len(names)} names of length <= {maxlen} over {len(ALPHA1)} symbols (+{len(KEYWORD_NAMES)} keyword names) x {{file, dir}} x "
-            f"{len(STYLES)} opening-quote styles x every proper typed prefix (literal and backslash-escaped spelling) x {{no closing quote, closing quote after the cursor}}; "
+            f"{len(STYLES)} opening-quote styles x every proper typed prefix (literal and backslash-escaped spelling) x {{no closing quote, closing quote after the cursor, cursor right after the closed quote (names of length <= " + str(AFTER_MAXLEN) + ")}}; "
             "a case is admitted when the real CompletionContextParser analyses the cursor as the end of the second word of the command and the completer's own partial-string unquoting reads the whole typed word as a prefix of the name; every completion returned by the real "
             "Completer.complete (path completer only) is spliced and executed; non-trivial = distinct (name, kind, spliced line) executions that reached the argv comparison. "
             f"part 1b: all {len(sets_)} directories holding 2 or 3 entries out of a pool of {len(pool)} names (one per quoting class: plain, $, backslash, each quote, control character, blank, ...) x "
             f"{len(STYLES)} opening-quote styles x {{no closing quote, closing quote after the cursor}} x typed prefixes {MULTI_TYPED} x EVERY visiting order of the candidates (the real _quote_paths is handed the candidates as an ordered list); "
+            f"part 1d: {len(ditems)} layouts (directory named a<h>b / <h>ab / ab<h>" + (" / a<h1><h2>b" if ctx.thorough else "") + f" for every hostile symbol h, holding one file) x routes {DIR_ROUTES} "
+            "(typed `$D/f`, the plain letters of the directory + `/f` for subsequence matching, `~/f` with $HOME = the directory), bare typed word; "
             f"part 2: all strings of length <= {p2len} over {len(ALPHA2)} symbols"
             + (f" and all strings of length 6 over {len(ALPHA2_REDUCED)} symbols" if ctx.thorough else "")
             + f" x every cursor position through CompletionContextParser.parse; part 3: all sequences of <= 3 symbols out of {len(ALPHA3)} ({len(_PREFIXES)} string prefixes x {len(_QUOTES)} quote kinds, the bare quotes doubling as closers, + 8 neighbours)"
@@ -1048,6 +1252,11 @@ def run(ctx):
         analyser_strings=t2["strings"],
         analyser_parses=t2["parses"],
         analyser_bad=sum(bad_counts.values()),
+        parent_dir_layouts=len(ditems),
+        parent_dir_cases_admitted=totd["admitted"],
+        parent_dir_cases_without_completion=totd["no_completion"],
+        parent_dir_completions_spliced=totd["completions"],
+        parent_dir_failures=totd["failing"],
         multi_directories=len(sets_),
         multi_cases_admitted=totm["admitted"],
         multi_completions_spliced=totm["completions"],
@@ -1109,11 +1318,22 @@ def replay(rec):
             for n in names:
                 os.unlink(os.path.join(w.cwd, n))
         return rc
+    if case.get("part") == "roundtrip-dir":
+        global DIR_ROUTES
+        DIR_ROUTES = (case["route"],)
+        r = check_dir((case["dir"], case["file"]))
+        print("layout  :", repr(case["dir"]) + "/" + repr(case["file"]), "route:", case["route"], "line:", repr(case["line"]))
+        for f in r["fails"]:
+            print("completion:", repr(f["completion"]), "prefix_len:", f["prefix_len"], "-> line", repr(f["spliced"]))
+            print("  observed argv calls:", f["observed"])
+            print("  expected           : one call whose single argument denotes <CWD>/" + case["dir"] + "/" + case["file"])
+        print("verdict :", "VIOLATION" if r["fails"] else f"ok ({r['completions']} completions read back correctly)")
+        return 1 if r["fails"] else 0
     name, kind, line, cursor = case["name"], case["kind"], case["line"], case["cursor"]
     w.make(name, kind)
     rc = 0
     try:
-        adm = w.admit(line, cursor, line[cursor:])
+        adm = w.admit_after(line, cursor, _closer(case["style"])) if case.get("closed") == AFTER else w.admit(line, cursor, line[cursor:])
         print("name    :", repr(name), f"({kind})")
         print("line    :", repr(line), "cursor:", cursor, "read by the analyser/completer as (opening quote, typed value):", adm,
               "admitted:", adm is not None and name.startswith(adm[1]))
